@@ -265,6 +265,11 @@ def pick(lst, k):
     return lst[k % len(lst)]
 
 
+def _sets(op):
+    """settings argument of an op; a caller may pre-build it (op['_S']) to inspect it afterwards"""
+    return op['_S'] if '_S' in op else mk_settings(op['s'])
+
+
 def apply_op(v, op, operand):
     """Apply one operation.  Mutable receiver + op['ip'] -> in-place form (returns v)."""
     name = op['op']
@@ -273,14 +278,14 @@ def apply_op(v, op, operand):
     kw = {'inplace': True} if ip else {}
     if name == 'apply':
         if mut:
-            v.apply_formatting(mk_settings(op['s']), op['a'], op['b'], op.get('top', True))
+            v.apply_formatting(_sets(op), op['a'], op['b'], op.get('top', True))
             return v
-        return v.apply_formatting(mk_settings(op['s']), op['a'], op['b'], op.get('top', True))
+        return v.apply_formatting(_sets(op), op['a'], op['b'], op.get('top', True))
     if name == 'remove':
         if mut:
-            v.remove_formatting(mk_settings(op['s']), op['a'], op['b'])
+            v.remove_formatting(_sets(op), op['a'], op['b'])
             return v
-        return v.remove_formatting(mk_settings(op['s']), op['a'], op['b'])
+        return v.remove_formatting(_sets(op), op['a'], op['b'])
     if name == 'slice':
         return v[op['a']:op['b']]
     if name == 'index':
@@ -336,7 +341,7 @@ def apply_op(v, op, operand):
         return v.copy() if mut else AnsiStr(v)
     if name in ('fmtmatch', 'unfmtmatch'):
         f = v.format_matching if name == 'fmtmatch' else v.unformat_matching
-        r = f(op['pat'], *(mk_settings(op['s']) or []), regex=op.get('regex', False),
+        r = f(op['pat'], *(_sets(op) or []), regex=op.get('regex', False),
               match_case=op.get('mc', False), count=op.get('n', -1))
         return v if mut else r
     if name == 'conv':
